@@ -56,6 +56,7 @@ def step (d : DSt) (line : String) : DSt × String :=
   | ["e", "pclose"] => let s := stepE d.s .pclose; ({ s }, snap s)
   | ["g", i, k, c] => let s := stepG d.s (Drv.nat! i) { consume := Drv.nat! k, close := c = "1" }; ({ s }, snap s)
   | ["u"] => let s := stepU d.s; ({ s }, snap s)
+  | ["setcb"] => (d, "refused " ++ snap d.s)       -- a refused SetCallbacks changes nothing
   | ["finish"] => let s := finish 100000 d.s; ({ s }, "done " ++ snap s)
   | _ => (d, "bad-op")
 
